@@ -62,4 +62,15 @@ PROPS = {
   "level_note": "Trusted as C04; Settable values within int32.",
   "technique": "Coq structural theorems over all limit models + differential replay of per-listener logs",
  },
+ "C18": {
+  "tests": ["TestC18"],
+  "rule": "six measurement types x random constructor arguments x random interleavings of Add/Get/Reset/Update with positive finite samples; every Add is checked against the "
+          "named quantity (minimum / latest / warm-up mean / hull) and the changed-flag; each case ends with Reset and a twin run against a new instance; sample windows are "
+          "built twice in two random orders; non-trivial = an Add on a distinct (type, configuration, position, value), a reset twin, a distinct window multiset",
+  "level_text": "Proved: C18_minimum (over the reals, any number of positive finite samples), C18_minimum_flag, C18_expavg_warmup, C18_window_summary, C18_window_perm "
+                "(any permutation), C18_reset_fresh_* for the four stateful types (Reset yields literally the constructor's state after any operation sequence). "
+                "Hull of the exponential average and non-negative variance are decided by replay + oracle (float theorems in progress).",
+  "level_note": "Trusted as C04; math.Pow(d,2) modelled as d*d (identical unless the square is subnormal; generator keeps |d| >= 2^-500). Known finding F20 (warm-up 0) replayed.",
+  "technique": "Coq structural/real-number theorems over the binary64 model + bit-exact differential replay with reset twins",
+ },
 }
